@@ -321,6 +321,14 @@ func genCase(t *rapid.T) Case {
 		c.DevKey += rapid.SampledFrom([]string{"+e1", "+e4", "+e31", "+e32", "+e32", "+e40"}).Draw(t, "devExp")
 	}
 	c.Ctor = rapid.SampledFrom([]string{"", "", "files"}).Draw(t, "ctor")
+	if focus >= 8 && rapid.IntRange(0, 2).Draw(t, "degenerateRoots") == 1 {
+		// degenerate root configurations, judged with a genuine signature; half of them under a device certificate
+		// issued by the CA the host trust store knows (the fallback a missing pool would open)
+		c.Ctor = rapid.SampledFrom([]string{"files-none", "files-none", "files-missing", "files-dir", "files-first-empty", "files-second-empty"}).Draw(t, "degenerateCtor")
+		if rapid.Bool().Draw(t, "degenerateForeign") {
+			c.Issuer, c.Validity = "foreign", "ok"
+		}
+	}
 	c.TBS = rapid.SliceOfN(rapid.Byte(), 1, 120).Draw(t, "tbs")
 	h, _ := labelHash(x509.SignatureAlgorithm(c.Algo))
 	if h == "" || h == "any" {
@@ -627,16 +635,45 @@ func exec(c Case) (vh.Outcome, error) {
 		slot.NotBefore, slot.NotAfter = time.Now().Add(36*time.Hour), time.Now().Add(40*time.Hour)
 	}
 	at := yubiattest.NewAttestorWithCAPool(pool)
-	if c.Ctor == "files" {
-		out.Classes = append(out.Classes, "ctor=files")
+	if strings.HasPrefix(c.Ctor, "files") {
+		out.Classes = append(out.Classes, "ctor="+c.Ctor)
 		f1, f2, ferr := rootFiles(c.Pool)
 		if ferr != nil {
 			return out, nil
 		}
-		var cerr error
-		if at, cerr = yubiattest.NewAttestor(f1, f2); cerr != nil {
-			return out, vh.Errf("NewAttestor refused root files holding %v: %v", c.Pool, cerr)
+		// degenerate configurations: either refused, or nothing beyond the readable files is trusted
+		loaded := c.Pool
+		switch c.Ctor {
+		case "files-none":
+			f1, f2, loaded = "", "", nil
+		case "files-missing":
+			f1, f2, loaded = f1+".missing", f2+".missing", nil
+		case "files-dir":
+			f1, f2, loaded = filepath.Dir(f1), filepath.Dir(f2), nil
+		case "files-first-empty":
+			f1, loaded = "", c.Pool[1:]
+			if len(c.Pool) == 1 {
+				loaded = c.Pool
+			}
+		case "files-second-empty":
+			f2, loaded = "", c.Pool[:1]
 		}
+		var cerr error
+		at, cerr = yubiattest.NewAttestor(f1, f2)
+		if cerr != nil || at == nil {
+			if c.Ctor == "files" {
+				return out, vh.Errf("NewAttestor refused root files holding %v: %v", c.Pool, cerr)
+			}
+			out.Classes = append(out.Classes, "degenerate-roots-refused")
+			return out, nil
+		}
+		inPool = false
+		for _, r := range loaded {
+			if r == c.Issuer {
+				inPool = true
+			}
+		}
+		chainOK = inPool && c.Validity == "ok"
 	}
 	var aerr error
 	if perr := vh.Catch(func() { aerr = at.Attest(f9, slot) }); perr != nil {
@@ -689,7 +726,7 @@ func exec(c Case) (vh.Outcome, error) {
 	return out, nil
 }
 
-const rule = "the harness owns the device RSA private key and signs arbitrary encoded messages (sig = EM^d mod N): correct form 1 (with NULL) and form 2 (without) for SHA-1/256/384/512; one byte replaced at a position drawn per class (00, 01, first / last / inner padding byte, separator, identifier, digest); shortened padding with shifted tail and garbage; short EM with 0..7 padding bytes; full-length EM whose DigestInfo is another DER / BER spelling (junk inside the algorithm identifier or behind the digest with adjusted lengths, long-form or indefinite lengths, other parameters, junk behind it); identifier of another hash; the label's digest behind the identifier of another algorithm (incl. RIPEMD-160, whose digests are as long as SHA-1's) or behind no identifier; digest of other data; single-bit flips of signature and body; arbitrary signature bytes; a genuine signature with one or two bytes added in front or one behind; genuine ECDSA signature under a non-RSA device key. A fifth of the cases keep the signature genuine and vary only the chain side (issuer, dates, extensions, the issuer's signature algorithm, constructor). Crossed with every signature-algorithm label 0..20, device key sizes 1024/1025/1031/1536/2047/2048 (a sixth of the root-issued device certificates carry the modulus under another public exponent: 3, 17, 2^31+1, 2^32+1, 2^40+1) (rarely 4096/4104/4608/6144; always, with 3072, in thorough), device certificate issued by a pool root / by a CA outside the pool / self-signed / expired / not yet valid, optionally carrying a vendor extension (Yubico arc, plain or critical) or another unknown critical extension (then only 'accepted => valid chain' is judged), signed by its issuer with SHA-256 / SHA-384 / SHA-512 or SHA-1 (which the platform verifier refuses by policy: only 'accepted => valid chain' is judged), pools of 1..3 roots handed over as a pool or (a third) as the two PEM files NewAttestor reads - the CA outside the pool is installed as this process's host trust store (SSL_CERT_FILE), i.e. a publicly trusted CA that is not configured -, slot certificate dated now / inside an expired device certificate's window / in the future / not at all (the chain must be judged at the current time). Oracle: the harness recomputes sig^e mod N itself; the verdict is the same when the call is repeated after a genuine attestation under the same device key; for *WithRSA SHA labels Attest = nil iff chain valid now and EM is form 1 or form 2 of the label's digest; DSA/ECDSA labels only-if; everything else must be refused. Non-trivial: every case except 'everything valid, form 1'."
+const rule = "the harness owns the device RSA private key and signs arbitrary encoded messages (sig = EM^d mod N): correct form 1 (with NULL) and form 2 (without) for SHA-1/256/384/512; one byte replaced at a position drawn per class (00, 01, first / last / inner padding byte, separator, identifier, digest); shortened padding with shifted tail and garbage; short EM with 0..7 padding bytes; full-length EM whose DigestInfo is another DER / BER spelling (junk inside the algorithm identifier or behind the digest with adjusted lengths, long-form or indefinite lengths, other parameters, junk behind it); identifier of another hash; the label's digest behind the identifier of another algorithm (incl. RIPEMD-160, whose digests are as long as SHA-1's) or behind no identifier; digest of other data; single-bit flips of signature and body; arbitrary signature bytes; a genuine signature with one or two bytes added in front or one behind; genuine ECDSA signature under a non-RSA device key. A fifth of the cases keep the signature genuine and vary only the chain side (issuer, dates, extensions, the issuer's signature algorithm, constructor). Crossed with every signature-algorithm label 0..20, device key sizes 1024/1025/1031/1536/2047/2048 (a sixth of the root-issued device certificates carry the modulus under another public exponent: 3, 17, 2^31+1, 2^32+1, 2^40+1) (rarely 4096/4104/4608/6144; always, with 3072, in thorough), device certificate issued by a pool root / by a CA outside the pool / self-signed / expired / not yet valid, optionally carrying a vendor extension (Yubico arc, plain or critical) or another unknown critical extension (then only 'accepted => valid chain' is judged), signed by its issuer with SHA-256 / SHA-384 / SHA-512 or SHA-1 (which the platform verifier refuses by policy: only 'accepted => valid chain' is judged), pools of 1..3 roots handed over as a pool or (a third) as the two PEM files NewAttestor reads - and, in a fifteenth of all cases (always with a genuine signature, half of them under a device certificate issued by the CA the host trust store knows), as a degenerate configuration (both paths empty, missing files, directories, one path empty): either refused by the constructor or no root beyond the readable files is trusted - the CA outside the pool is installed as this process's host trust store (SSL_CERT_FILE), i.e. a publicly trusted CA that is not configured -, slot certificate dated now / inside an expired device certificate's window / in the future / not at all (the chain must be judged at the current time). Oracle: the harness recomputes sig^e mod N itself; the verdict is the same when the call is repeated after a genuine attestation under the same device key; for *WithRSA SHA labels Attest = nil iff chain valid now and EM is form 1 or form 2 of the label's digest; DSA/ECDSA labels only-if; everything else must be refused. Non-trivial: every case except 'everything valid, form 1'."
 
 func TestC06Attest(t *testing.T) {
 	vh.Run(t, vh.Spec[Case]{Property: "C06", Name: "TestC06Attest", Rule: rule, Gen: genCase, Exec: exec})
